@@ -431,6 +431,125 @@ type originOpts struct {
 	binops  bool // follow both operands of arithmetic BinOps
 }
 
+// constructorArg: fa addresses a field of the object an unexported constructor of the repository
+// has just returned; the constructor stores one of its own parameters into that field (once, into
+// the object it allocates and returns) and the calling function does not assign the field: the
+// argument the caller passed for that parameter. `sc, err := newReadableWritable(rw, roots, opts...)`
+// followed by `sc.roots` is `roots`.
+func constructorArg(fa *ssa.FieldAddr) ssa.Value {
+	base := canon(fa.X)
+	var call *ssa.Call
+	switch b := base.(type) {
+	case *ssa.Call:
+		call = b
+	case *ssa.Extract:
+		if b.Index == 0 {
+			call, _ = b.Tuple.(*ssa.Call)
+		}
+	}
+	if call == nil {
+		return nil
+	}
+	g := call.Call.StaticCallee()
+	if g == nil || len(g.Blocks) == 0 || g.Object() == nil || g.Object().Exported() || g.Pkg == nil || !isRepoPkg(g.Pkg.Pkg.Path()) {
+		return nil
+	}
+	// the caller leaves the field alone
+	if fn := fa.Parent(); fn != nil {
+		assigned := false
+		eachInstr(fn, func(in ssa.Instruction) {
+			if st, ok := in.(*ssa.Store); ok {
+				if fa2, ok := st.Addr.(*ssa.FieldAddr); ok && fa2.Field == fa.Field && canon(fa2.X) == base {
+					assigned = true
+				}
+			}
+		})
+		if assigned {
+			return nil
+		}
+	}
+	if k, ok := ctorFieldParam(g, fa.Field, 0); ok && k < len(call.Call.Args) {
+		return call.Call.Args[k]
+	}
+	return nil
+}
+
+// ctorFieldParam: the index of the parameter of constructor g that ends up, unchanged, in field
+// number `field` of the one object g returns — stored by g itself into the object it allocates, or
+// by the inner constructor g delegates to (newReadableWritable -> newWritable).
+func ctorFieldParam(g *ssa.Function, field int, depth int) (int, bool) {
+	if depth > 3 || g == nil || len(g.Blocks) == 0 {
+		return 0, false
+	}
+	var obj ssa.Value
+	for _, ret := range returnsOf(g) {
+		if len(ret.Results) == 0 {
+			return 0, false
+		}
+		for _, leaf := range phiLeaves(retResult(ret, 0)) {
+			if isNilConst(leaf) {
+				continue
+			}
+			l := canon(leaf)
+			if obj != nil && obj != l {
+				return 0, false
+			}
+			obj = l
+		}
+	}
+	if obj == nil {
+		return 0, false
+	}
+	var param *ssa.Parameter
+	n := 0
+	eachInstr(g, func(in ssa.Instruction) {
+		st, ok := in.(*ssa.Store)
+		if !ok {
+			return
+		}
+		fa2, ok := st.Addr.(*ssa.FieldAddr)
+		if !ok || fa2.Field != field || canon(fa2.X) != obj && fa2.X != obj {
+			return
+		}
+		n++
+		param, _ = canon(st.Val).(*ssa.Parameter)
+	})
+	paramIndex := func(p *ssa.Parameter) (int, bool) {
+		for i, q := range g.Params {
+			if q == p {
+				return i, true
+			}
+		}
+		return 0, false
+	}
+	switch o := obj.(type) {
+	case *ssa.Alloc:
+		if n == 1 && param != nil {
+			return paramIndex(param)
+		}
+	case *ssa.Call, *ssa.Extract:
+		var call *ssa.Call
+		if c, ok := o.(*ssa.Call); ok {
+			call = c
+		} else if e := o.(*ssa.Extract); e.Index == 0 {
+			call, _ = e.Tuple.(*ssa.Call)
+		}
+		if call == nil || n != 0 {
+			return 0, false
+		}
+		h := call.Call.StaticCallee()
+		if h == nil || h.Object() == nil || h.Object().Exported() || h.Pkg != g.Pkg {
+			return 0, false
+		}
+		if k, ok := ctorFieldParam(h, field, depth+1); ok && k < len(call.Call.Args) {
+			if p, ok := canon(call.Call.Args[k]).(*ssa.Parameter); ok {
+				return paramIndex(p)
+			}
+		}
+	}
+	return 0, false
+}
+
 func origins(v ssa.Value, o originOpts) []Origin {
 	var out []Origin
 	seen := map[ssa.Value]bool{}
@@ -502,6 +621,10 @@ func origins(v ssa.Value, o originOpts) []Origin {
 				case *ssa.FieldAddr:
 					if src := setOnceSource(x); src != nil {
 						walk(src)
+						return
+					}
+					if arg := constructorArg(a); arg != nil {
+						walk(arg)
 						return
 					}
 					out = append(out, Origin{Kind: "field", Val: x, Field: fieldVar(a.X.Type(), a.Field), Base: a.X})
